@@ -24,7 +24,7 @@ import (
 )
 
 const (
-	fairRounds = 2048 // bounded liveness: Mine must return within this many fair rounds after cancellation
+	fairRounds = 600 // bounded liveness: Mine must return within this many fair rounds after cancellation
 )
 
 type mineRet struct {
@@ -319,7 +319,7 @@ func (w *world) simulate(choices []int) {
 			}
 			break
 		}
-		if len(k.Trace) >= hardCap && !w.returned {
+		if len(k.Trace) >= hardCap && !w.returned && !w.cancelDelivered {
 			if st != nil && cfg.Stub.AllQualify {
 				w.violate("no-progress", fmt.Sprintf("Mine did not return within %d steps although every nonce qualifies", len(k.Trace)), nil)
 			} else {
@@ -354,11 +354,14 @@ func (w *world) simulate(choices []int) {
 				break
 			}
 		}
-		if (fair || (w.replay && k.ReplayExhausted())) && w.cancelDelivered && !w.returned {
+		if w.cancelDelivered && !w.returned {
+			// rounds are counted from the delivery of the cancellation on (the at most 50 steps the strategy
+			// keeps control are included, which only makes the bound a little stricter than fairRounds fair
+			// rounds); this makes the verdict a function of the recorded schedule alone, so it replays
 			if k.Wrapped() {
 				wraps++
 			}
-			if wraps > fairRounds {
+			if wraps > fairRounds+cfg.Fault.Grace {
 				w.violate("hang-after-cancel", fmt.Sprintf("Mine did not return within %d fair rounds after the cancellation was delivered at step %d", fairRounds, w.cancelStep), nil)
 				break
 			}
